@@ -417,6 +417,9 @@ var c19Alphabets = [][]rune{
 	[]rune("abcXYZ019_-./ \t\n"),
 	[]rune("éÉßǅ٣١中_a1Aͅ "), // lower, upper, title-case (Dž), Arabic-Indic digits, CJK, combining
 	[]rune("IDidHTTPServer2xJSON_v10"),
+	// runes an implementation might set aside as a marker: the replacement character written out (valid UTF-8 like any
+	// other), NUL and the separators of ASCII, the last code points of the planes, a private-use rune
+	[]rune("aB1_\ufffd\x00\x1e\x1f\uffff\U0010ffff\ue000\ufeff"),
 }
 
 func genC19Bytes(r *Rng) []byte {
